@@ -94,6 +94,10 @@ def run(p: Program, rep: Report, tier: str) -> None:
             rep.ok("R6.1", f"{fn.fq}: the handle is settled inside a finally block")
         elif setl:
             rep.violation("R6.1", construct(fn, text="settled outside finally"), where(fn, setl[0]), f"{fn.fq}: the handle is settled outside a finally block")
+        elif created_any and bad is None:
+            # no settling call in the function's own text: it sits in inlined code that runs on every exit (the __exit__ / __aexit__ of a
+            # private context manager, a private helper called from a finally) - the path rule above has covered every exit
+            rep.ok("R6.1", f"{fn.fq}: the handle is settled by code that runs on every exit (context manager / helper), see the path rule")
     rep.require_instances("R6.1", 6)
 
     # ---------------------------------------------------------------- R6.2 producer release
@@ -186,6 +190,12 @@ def run(p: Program, rep: Report, tier: str) -> None:
                         body_src = ast.unparse(ast.Module(body=n.body, type_ignores=[]))
                         if f"{qname}.get(" in body_src or f"{qname}.get_nowait(" in body_src:
                             drain_until_done = True
+                    # the same loop written with the two-argument iter(): `for _ in iter(<handle>.done, True): <get>`
+                    if isinstance(n, ast.For) and isinstance(n.iter, ast.Call) and isinstance(n.iter.func, ast.Name) and n.iter.func.id == "iter" and len(n.iter.args) == 2 \
+                            and isinstance(n.iter.args[0], ast.Attribute) and n.iter.args[0].attr == "done" and isinstance(n.iter.args[1], ast.Constant) and n.iter.args[1].value is True:
+                        body_src = ast.unparse(ast.Module(body=n.body, type_ignores=[]))
+                        if f"{qname}.get(" in body_src or f"{qname}.get_nowait(" in body_src:
+                            drain_until_done = True
             # a wait for done() must not wait for a relay that is still QUEUED in the pool (all workers busy with other streams):
             # cancel() has to be tried first and its result has to end the wait
             hn = _handle_names(rs)
@@ -263,8 +273,18 @@ def run(p: Program, rep: Report, tier: str) -> None:
         tested = {x.id for n in ast.walk(push.node) if isinstance(n, ast.While) for x in ast.walk(n.test) if isinstance(x, ast.Name)} & nonlocals
         flags = [n for n in ast.walk(ast.Module(body=[s for t in fins for s in t.finalbody], type_ignores=[])) if isinstance(n, ast.Assign) and len(n.targets) == 1 and isinstance(n.targets[0], ast.Name)
                  and n.targets[0].id in tested and isinstance(n.value, ast.Constant) and n.value.value is True]
-        if flags:
+        # the same flag kept in an Event object: `stop = threading.Event()` / `asyncio.Event()`; tested `while not stop.is_set()`, raised `stop.set()`
+        events_ = {n.targets[0].id for n in walk_shallow(rs.node) if isinstance(n, ast.Assign) and len(n.targets) == 1 and isinstance(n.targets[0], ast.Name)
+                   and isinstance(n.value, ast.Call) and ast.unparse(n.value.func).split(".")[-1] == "Event" and not n.value.args}
+        ev_tested = {x.func.value.id for n in ast.walk(push.node) if isinstance(n, ast.While) for x in ast.walk(n.test)
+                     if isinstance(x, ast.Call) and isinstance(x.func, ast.Attribute) and x.func.attr == "is_set" and isinstance(x.func.value, ast.Name) and x.func.value.id in events_}
+        ev_raised = [c for c in ast.walk(ast.Module(body=[s for t in fins for s in t.finalbody], type_ignores=[])) if isinstance(c, ast.Call) and isinstance(c.func, ast.Attribute)
+                     and c.func.attr == "set" and isinstance(c.func.value, ast.Name) and c.func.value.id in ev_tested]
+        relay_tests = [ast.unparse(n.test) for n in ast.walk(push.node) if isinstance(n, ast.While) and not (isinstance(n.test, ast.Constant) and n.test.value is True)]
+        if flags or ev_raised:
             rep.ok("R6.3", f"{side}: the consumer raises the stop flag in its finally and the relay loop tests it before every step")
+        elif relay_tests and not tested and not ev_tested and not events_ and not nonlocals:
+            rep.undecide("R6.3", f"{side}: the relay loop tests `{relay_tests[0][:50]}`, which is neither a nonlocal flag nor an Event of the consumer: how the relay is asked to stop is not recognised")
         else:
             rep.violation("R6.3", construct(rs, text="stop flag"), where(rs), f"{side}: the relay is not asked to stop (flag not set in finally or not tested by the relay loop)")
         # R6.4 single producer loop / consumer yields every item
